@@ -50,7 +50,7 @@ TABLE = {
     "Perturb_c08c_quick": dict(BASE, PKinds="KStruct", MaxEdits=1, ConKinds="NestCons2", SpecKinds="AllSpec", UnitKinds="SubMod", DumpMod=23),
     "Perturb_c08c_thorough": dict(BASE, PKinds="KStruct", MaxEdits=1, ConKinds="NestCons2", SpecKinds="AllSpec", UnitKinds="SubMod", DumpMod=3),
     "Perturb_c13_quick": dict(BASE, UnitKinds="ExhUnits0", PKinds="KInc", MaxEdits=2, DumpMod=32),
-    "Perturb_c13_thorough": dict(BASE, UnitKinds="ExhUnits0", PKinds="KInc", MaxEdits=2, DumpMod=4),
+    "Perturb_c13_thorough": dict(BASE, UnitKinds="ExhUnits0", PKinds="KInc", MaxEdits=2, MaxStmts=4, DumpMod=12),
     "Perturb_c13_sim": dict(SIM, PKinds="KInc", MaxEdits=3),
     "Perturb_c04_quick": dict(BASE, UnitKinds="ExhUnits0", PKinds="KLayout1", MaxEdits=1, DumpMod=9),
     "Perturb_c04_thorough": dict(BASE, UnitKinds="ExhUnits0", PKinds="KLayout1", MaxEdits=1, DumpMod=2),
